@@ -35,8 +35,9 @@ FNS = [
            ensures="r.latch_counter@ == latch_count, r.async_callback is Some, latch_count >= 1 ==> r.inv()"),
     FnSpec(F, "latch_callback_1p", out_name="latch_call", props=["C12"], block_anchor=r"Box::pin\(async move\s*(?=\{)",
            sig="pub fn latch_call(latch_counter: &mut AtomicU32, async_callback: &mut Option<Callback>, p1: Param)", sig_anchor=r"fn latch_callback_1p<",
-           rules=[Rule("R10-mutex-lock", r"let mut async_callback = async_callback\.lock\(\)\.await;", "", count=1, note="tokio Mutex guard dropped (exclusive access ASSUMED)"),
-                  Rule("R15-fnonce-call", r"\(async_callback\.take\(\)\.expect\(\"[^\"]*\"\)\)\(p1\)\.await;", "async_callback.take().unwrap().call(p1);", count=1,
+           rules=[Rule("R10-mutex-lock", r"let mut async_callback = async_callback\.lock\(\)\.await;", "", min=0, note="tokio Mutex guard dropped (exclusive access ASSUMED)"),
+                  Rule("R10-mutex-lock-expr", r"\basync_callback\.lock\(\)\.await\b", "async_callback", min=0, note="tokio Mutex guard used in an expression -> the protected cell itself"),
+                  Rule("R15-fnonce-call", r"\((async_callback(?:\.take\(\))?)\.expect\(\"[^\"]*\"\)\)\(p1\)\.await;", r"\1.unwrap().call(p1);", count=1,
                        note="expect -> unwrap (reachability of the BUG! panic becomes an obligation); FnOnce call -> Callback::call")],
            requires="old(latch_counter)@ >= 1, *old(async_callback) is Some",
            ensures="final(latch_counter)@ == old(latch_counter)@ - 1,"
